@@ -13,6 +13,12 @@ def main():
     if a.pid in CORE:
         import core
         mod = core
+    elif a.pid == "C17":
+        import c17
+        mod = c17
+    elif a.pid == "C13":
+        import c13
+        mod = c13
     elif a.pid == "C10":
         import c10
         mod = c10
